@@ -89,6 +89,11 @@ type c32Tags struct {
 	// Prev: tags the same member advertised before (the decoding node learns
 	// them at the member's join and the new ones through a metadata update)
 	Prev []c32KV `json:"prev,omitempty"`
+	// How the decoding node comes by the new set: 0 join with Prev, then a
+	// metadata update; 1 first sight (join carrying the new set); 2 join with
+	// Prev, the member fails, and re-joins carrying the new set; 3 as 0, with
+	// the update notified twice
+	How int `json:"how,omitempty"`
 }
 
 type c32Relay struct {
@@ -103,6 +108,12 @@ type c32Relay struct {
 	DestName []byte `json:"dest_name"`
 	Raw      bool   `json:"raw"` // envelope built by the harness around RawInner
 	RawInner []byte `json:"raw_inner"`
+	// E2E > 0: the whole journey of a relayed reply. A node that knows E2E+3
+	// further members answers (payload P) a query from IP:Port/DestName that asks
+	// for E2E relays; every envelope it sends is handed to a relaying node, and
+	// what that node forwards must be, byte for byte, the reply the origin also
+	// got directly, addressed to the origin.
+	E2E int `json:"e2e,omitempty"`
 }
 
 type c32Limit struct {
@@ -216,11 +227,13 @@ func genC32KVs(t *rapid.T, label string, maxN, maxLen int) []c32KV {
 	var out []c32KV
 	for i := 0; i < n; i++ {
 		var k string
-		switch rapid.IntRange(0, 5).Draw(t, label+".kk") {
+		switch rapid.IntRange(0, 7).Draw(t, label+".kk") {
 		case 0:
 			k = "role"
 		case 1:
 			k = fmt.Sprintf("k%d", i)
+		case 2:
+			k = genC32Special(t, label+".skey", maxLen)
 		default:
 			k = genUTF8(t, label+".key", maxLen)
 		}
@@ -228,9 +241,34 @@ func genC32KVs(t *rapid.T, label string, maxN, maxLen int) []c32KV {
 			continue
 		}
 		seen[k] = true
-		out = append(out, c32KV{K: k, V: genUTF8(t, label+".val", maxLen)})
+		v := genUTF8(t, label+".val", maxLen)
+		if rapid.IntRange(0, 4).Draw(t, label+".sv") == 0 {
+			v = genC32Special(t, label+".sval", maxLen)
+		}
+		out = append(out, c32KV{K: k, V: v})
 	}
 	return out
+}
+
+// c32Specials: strings a tag codec (or anything that flattens tags to text on
+// the way) could trip over: separators, the empty string, near-duplicates of
+// other keys, control characters, and lengths at which the msgpack string
+// header changes size (31/32, 255/256).
+var c32Specials = []string{"", " ", "=", ",", ":", "/", "a=b", "a=b=c", "k=", "=v", "a,b", "a:b", "a/b", "a b", " a", "a ", "a\nb", "a\x00b", "\x00", "\t",
+	"role", "Role", "ROLE", "role ", "role=", "rol", "k1", "k01", "\"", "'", "\\", "%s", "é", "\u00ff", "\ufeff", "tag-with-a-long-name.example.org/zone"}
+
+func genC32Special(t *rapid.T, label string, maxLen int) string {
+	var v string
+	if rapid.IntRange(0, 3).Draw(t, label+".len") == 0 {
+		n := rapid.SampledFrom([]int{31, 32, 33, 255, 256, 257}).Draw(t, label+".n")
+		v = string(bytes.Repeat([]byte{'b'}, n))
+	} else {
+		v = rapid.SampledFrom(c32Specials).Draw(t, label+".s")
+	}
+	if len(v) > maxLen {
+		v = v[:maxLen]
+	}
+	return v
 }
 
 func genC32Msg(t *rapid.T) *c32Msg {
@@ -421,7 +459,8 @@ func genC32(t *rapid.T) c32Case {
 		c.Tags = &c32Tags{
 			PVEnc: rapid.IntRange(2, 5).Draw(t, "pv_enc"),
 			PVDec: rapid.IntRange(2, 5).Draw(t, "pv_dec"),
-			Tags:  genC32KVs(t, "tags", 30, 200),
+			Tags:  genC32KVs(t, "tags", rapid.SampledFrom([]int{30, 30, 8, 3}).Draw(t, "tags.max"), rapid.SampledFrom([]int{200, 40, 40, 300}).Draw(t, "tags.maxlen")),
+			How:   rapid.SampledFrom([]int{0, 0, 1, 2, 3}).Draw(t, "how"),
 		}
 		if rapid.Bool().Draw(t, "has-prev") {
 			c.Tags.Prev = genC32KVs(t, "prev", 6, 20)
@@ -442,15 +481,29 @@ func genC32(t *rapid.T) c32Case {
 			Port:     rapid.Uint16().Draw(t, "port"),
 			DestName: genStrBytes(t, "dest", 60),
 		}
-		if rapid.Bool().Draw(t, "v6") {
+		switch rapid.IntRange(0, 4).Draw(t, "ipform") {
+		case 0, 1:
 			r.IP = rapid.SliceOfN(rapid.Byte(), 16, 16).Draw(t, "ip16")
 			r.Zone = rapid.SampledFrom([]string{"", "", "", "eth0"}).Draw(t, "zone")
-		} else {
+		case 2:
+			// an IPv4 address in its 16-byte form
+			r.IP = append([]byte{0, 0, 0, 0, 0, 0, 0, 0, 0, 0, 0xff, 0xff}, rapid.SliceOfN(rapid.Byte(), 4, 4).Draw(t, "ip4in16")...)
+		default:
 			r.IP = rapid.SliceOfN(rapid.Byte(), 4, 4).Draw(t, "ip4")
 		}
-		if rapid.IntRange(0, 3).Draw(t, "raw") == 0 {
+		switch rapid.IntRange(0, 5).Draw(t, "raw") {
+		case 0:
 			r.Raw = true
 			r.RawInner = rapid.SliceOfN(rapid.Byte(), 0, 200).Draw(t, "inner")
+		case 1:
+			r.Raw = true
+			r.RawInner = genBlob(t, "inner.big", 5000)
+		case 2, 3:
+			r.E2E = rapid.IntRange(1, 3).Draw(t, "e2e")
+			r.Zone = ""
+			if len(r.P) > 700 {
+				r.P = r.P[:700] // the relayed reply has to fit the default response size limit
+			}
 		}
 		c.Relay = r
 	case "limit":
@@ -792,8 +845,29 @@ func bodyC32Tags(c *c32Tags, x *vkit.Ctx) {
 		peer := func(meta []byte) *memberlist.Node {
 			return &memberlist.Node{Name: "tagged-peer", Addr: net.IPv4(10, 1, 2, 3), Port: 7946, Meta: meta, PMin: 1, PMax: 5, PCur: 2, DMin: 2, DMax: 5, DCur: uint8(c.PVEnc)}
 		}
-		b.Serf.VerifEventDelegate().NotifyJoin(peer(prevEnc))
-		b.Serf.VerifEventDelegate().NotifyUpdate(peer(enc))
+		ed := b.Serf.VerifEventDelegate()
+		b.Drain(node.Settle)
+		wantEvents := 0
+		switch c.How % 4 {
+		case 0:
+			ed.NotifyJoin(peer(prevEnc))
+			ed.NotifyUpdate(peer(enc))
+			wantEvents = 2
+		case 1:
+			ed.NotifyJoin(peer(enc))
+			wantEvents = 1
+		case 2:
+			ed.NotifyJoin(peer(prevEnc))
+			ed.NotifyLeave(peer(prevEnc))
+			ed.NotifyJoin(peer(enc))
+			wantEvents = 3
+		default:
+			ed.NotifyJoin(peer(prevEnc))
+			ed.NotifyUpdate(peer(enc))
+			ed.NotifyUpdate(peer(enc))
+			wantEvents = 3
+		}
+		x.Labelf("tags:member-level:how%d", c.How%4)
 		var listed map[string]string
 		found := false
 		for _, m := range b.Serf.Members() {
@@ -806,7 +880,40 @@ func bodyC32Tags(c *c32Tags, x *vkit.Ctx) {
 			return
 		}
 		if !eqLoose(listed, want) {
-			x.Violationf("tags-after-update", "a member that advertised %v and then %v (protocol %d) is listed with %v, want %v", c32Map(c.Prev), tags, c.PVEnc, listed, want)
+			x.Violationf("tags-after-update", "a member that advertised %v and then (how=%d) %v (protocol %d) is listed with %v, want %v", c32Map(c.Prev), c.How%4, tags, c.PVEnc, listed, want)
+			return
+		}
+		// ... and what the application is told: the last member event about the
+		// peer carries the new set
+		var last *serf.Member
+		evs, ok := b.WaitEvents(5*time.Second, func(evs []serf.Event) bool {
+			n := 0
+			for _, e := range evs {
+				if me, ok := e.(serf.MemberEvent); ok {
+					for i := range me.Members {
+						if me.Members[i].Name == "tagged-peer" {
+							n++
+						}
+					}
+				}
+			}
+			return n >= wantEvents
+		})
+		if !ok {
+			x.Inconclusive("member events about the peer not delivered within 5s")
+			return
+		}
+		for _, e := range evs {
+			if me, ok := e.(serf.MemberEvent); ok {
+				for i := range me.Members {
+					if me.Members[i].Name == "tagged-peer" {
+						last = &me.Members[i]
+					}
+				}
+			}
+		}
+		if last == nil || !eqLoose(last.Tags, want) {
+			x.Violationf("tags-in-member-event", "the last member event about a member that advertised %v and then (how=%d) %v (protocol %d) carries %+v, want tags %v", c32Map(c.Prev), c.How%4, tags, c.PVEnc, last, want)
 			return
 		}
 		if len(c.Prev) > 0 {
@@ -823,7 +930,114 @@ func bodyC32Tags(c *c32Tags, x *vkit.Ctx) {
 	x.NonTrivial(len(tags) >= 2 || (c.PVEnc < 3 && hasRole))
 }
 
+// bodyC32RelayE2E: responder -> envelope -> relaying node -> origin.
+func bodyC32RelayE2E(r *c32Relay, x *vkit.Ctx) {
+	x.Label("relay:end-to-end")
+	nw := simnet.New(1)
+	n, err := node.New(nw, node.Opts{Name: "responder", Quiet: true})
+	if err != nil {
+		x.Inconclusive("create: " + err.Error())
+		return
+	}
+	defer n.Stop()
+	rl, err := node.New(nw, node.Opts{Name: "relayer", Quiet: true})
+	if err != nil {
+		x.Inconclusive("create: " + err.Error())
+		return
+	}
+	defer rl.Stop()
+	for i := 0; i < r.E2E+3; i++ {
+		n.EventsD.NotifyJoin(node.MLNode(fmt.Sprintf("m%d", i), fmt.Sprintf("10.7.0.%d", i+1), 7946, nil, 5, 5))
+	}
+	origin := net.UDPAddr{IP: net.IP(r.IP), Port: int(r.Port)}
+	originName := string(r.DestName)
+	q := serf.VerifMessageQuery{LTime: serf.LamportTime(r.L), ID: r.ID, Addr: r.IP, Port: r.Port, SourceNode: originName,
+		RelayFactor: uint8(r.E2E), Timeout: time.Minute, Name: "c32-relay", Payload: []byte("?")}
+	msg, _ := serf.VerifEncodeMessage(serf.VerifMessageQueryType, &q, false)
+	n.Drain(node.Settle)
+	n.Delegate.NotifyMsg(msg)
+	var dq *serf.Query
+	if _, ok := n.WaitEvents(5*time.Second, func(evs []serf.Event) bool {
+		for _, e := range evs {
+			if qq, ok := e.(*serf.Query); ok && qq.Name == "c32-relay" {
+				dq = qq
+			}
+		}
+		return dq != nil
+	}); !ok {
+		x.Inconclusive("query not delivered to the application")
+		return
+	}
+	nw.Packets()
+	if err := dq.Respond(r.P); err != nil {
+		x.Inconclusive("Respond: " + err.Error())
+		return
+	}
+	var direct []byte
+	var envs [][]byte
+	for _, p := range node.UserMsgs(nw.Packets()) {
+		if p.From != "responder" || len(p.Buf) == 0 {
+			continue
+		}
+		switch p.Buf[0] {
+		case serf.VerifMessageQueryResponseType:
+			if direct != nil {
+				x.Violationf("relay-e2e-two-direct-replies", "two direct replies")
+				return
+			}
+			direct = p.Buf
+		case serf.VerifMessageRelayType:
+			envs = append(envs, p.Buf)
+		}
+	}
+	if direct == nil {
+		x.Inconclusive("no direct reply captured")
+		return
+	}
+	// the direct reply says what the application answered (independent reader)
+	var wr wResp
+	if err := mpDec(direct[1:], &wr); err != nil || wr.LTime != r.L || wr.ID != r.ID || wr.From != "responder" || !bytes.Equal(wr.Payload, r.P) && len(wr.Payload)+len(r.P) > 0 {
+		x.Violationf("relay-e2e-direct-reply", "direct reply %+v (err %v) is not the answer %s to query %d/%d", wr, err, hexShort(r.P), r.L, r.ID)
+		return
+	}
+	if len(envs) == 0 { // how many relays are chosen is C35's subject (the choice is random and may come up short)
+		x.Inconclusive("no relay envelope sent")
+		return
+	}
+	x.Labelf("relay:e2e-envelopes=%d", len(envs))
+	for _, env := range envs {
+		nw.Packets()
+		rl.Delegate.NotifyMsg(env)
+		var fw []simnet.Packet
+		for _, p := range node.UserMsgs(nw.Packets()) {
+			if p.From == "relayer" {
+				fw = append(fw, p)
+			}
+		}
+		if len(fw) != 1 {
+			x.Violationf("relay-not-forwarded", "an envelope sent by a responder produced %d packets at the relaying node, want 1 (log: %s)", len(fw), tailStr(rl.Log.String(), 400))
+			return
+		}
+		if fw[0].To != origin.String() || fw[0].ToName != originName {
+			x.Violationf("relay-wrong-destination", "relayed to %q/%q, the origin is %q/%q", fw[0].To, fw[0].ToName, origin.String(), originName)
+			return
+		}
+		if !bytes.Equal(fw[0].Buf, direct) {
+			x.Violationf("relay-bytes", "the relayed reply differs from the direct one: got %s want %s", hexShort(fw[0].Buf), hexShort(direct))
+			return
+		}
+	}
+	if len(r.IP) == 16 {
+		x.Label("relay:ip-16-bytes")
+	}
+	x.NonTrivial(true)
+}
+
 func bodyC32Relay(r *c32Relay, x *vkit.Ctx) {
+	if r.E2E > 0 {
+		bodyC32RelayE2E(r, x)
+		return
+	}
 	nw := simnet.New(1)
 	n, err := node.New(nw, node.Opts{Name: "relay", Quiet: true})
 	if err != nil {
@@ -869,7 +1083,7 @@ func bodyC32Relay(r *c32Relay, x *vkit.Ctx) {
 		return
 	}
 	if len(r.IP) == 16 {
-		x.Label("relay:ipv6")
+		x.Label("relay:ip-16-bytes")
 	}
 	x.NonTrivial(true)
 }
